@@ -187,3 +187,31 @@ Proof.
   split; [|vm_compute; auto].
   intros b Hb. simpl in Hb. repeat (destruct Hb as [<-|Hb]; [simpl; lia|]). inversion Hb.
 Qed.
+
+(* non-vacuity of the reduction theorems: an index_active lookup over sparse unsorted labels, write-back, the deleted
+   net of a junction table with two one-section branch tables (hypotheses of reduce_eq_delete hold: kept rows refer to
+   kept junctions), a restart after a component switched a row off *)
+Definition ex_js : list Z := [70; 30; 50; 10]%Z.
+Definition ex_tabs : list (list brow) :=
+  [ [ {| r_label := 5; r_from := 70; r_to := 30; r_active := true; r_directed := false; r_frc := false |};
+      {| r_label := 2; r_from := 30; r_to := 50; r_active := true; r_directed := false; r_frc := false |} ];
+    [ {| r_label := 0; r_from := 10; r_to := 70; r_active := true; r_directed := true; r_frc := false |};
+      {| r_label := 9; r_from := 70; r_to := 10; r_active := true; r_directed := false; r_frc := true |} ] ]%Z.
+
+Example reduction_examples :
+  (let lu := index_active [true; false; true; true] ex_js 0 4 (mk_index_lookup ex_js 0) in
+   (sget lu 70, sget lu 30, sget lu 50, sget lu 10, sget lu 40) = (0, -1, 1, 2, -1))%Z
+  /\ writeback [true; false; true; true] [11; 12; 13]%Z = [Some 11; None; Some 12; Some 13]%Z
+  /\ from_to_active [true; false; true; true; true] [(0, (0, 2)); (1, (2, 5))] 0%Z = [(0, (0%Z, 1%Z)); (1, (1%Z, 4%Z))]
+  /\ (let nmask := [true; false; true; true] in let bmask := [false; false; true; true] in
+      NoDup ex_js /\
+      map ends (mk_branches (select nmask ex_js) (select_tabs bmask ex_tabs)) =
+      map (fun bf => (fst (snd bf), snd (snd bf), (b_active (fst bf), b_directed (fst bf), b_frc (fst bf))))
+          (combine (select bmask (mk_branches ex_js ex_tabs)) (reduce_ft nmask bmask (mk_branches ex_js ex_tabs))))
+  /\ fst (restart_check (fun pn pb => (pn, pb))
+            {| r_pn := [true; true]; r_pb := [true; true; true]; r_mn := [true; true]; r_mb := [true; true; true];
+               r_an := [true; true]; r_ab := [true; false; true] |}) = true.
+Proof.
+  repeat split; try (vm_compute; reflexivity).
+  unfold ex_js. repeat constructor; simpl; intuition lia.
+Qed.
